@@ -98,3 +98,72 @@ theorem LS_floor (b s : ℕ → ℤ) (f : ℝ) (n : ℕ) (h : ∀ i, i < n → b
       constructor
       · push_cast; rw [hk]; nlinarith
       · push_cast; rw [hk]; nlinarith
+
+/-- LS_cum_mono (contracts/truncation.py): a fold of non-negative reals is monotone in its length. -/
+theorem LS_cum_mono (a : ℕ → ℝ) (n : ℕ) (h : ∀ i, i < n → 0 ≤ a i) :
+    ∀ i j, i ≤ j → j ≤ n → SUMR a i ≤ SUMR a j := by
+  intro i j hij hjn
+  induction j with
+  | zero =>
+    have : i = 0 := by omega
+    subst this
+    exact le_refl _
+  | succ k ih =>
+    by_cases hk : i = k + 1
+    · subst hk
+      exact le_refl _
+    · have hik : i ≤ k := by omega
+      have h1 := ih hik (by omega)
+      have h2 := h k (by omega)
+      simp only [SUMR]
+      linarith
+
+/-- LB_boundary (contracts/truncation.py): a monotone boolean sequence on `[0, n)` has a boundary index `d`:
+    false below `d`, true from `d` on. -/
+theorem LB_boundary (p : ℕ → Prop) (n : ℕ)
+    (hmono : ∀ i j, i ≤ j → j < n → p i → p j) :
+    ∃ d, d ≤ n ∧ (∀ k, k < d → ¬ p k) ∧ (∀ k, d ≤ k → k < n → p k) := by
+  classical
+  induction n with
+  | zero => exact ⟨0, le_refl _, fun k hk => by omega, fun k _ hk => by omega⟩
+  | succ m ih =>
+    obtain ⟨d, hd, hlo, hhi⟩ := ih (fun i j hij hj hp => hmono i j hij (by omega) hp)
+    by_cases hd' : d < m
+    · -- the boundary is strictly inside: p (m-1) holds, hence p m
+      refine ⟨d, by omega, hlo, ?_⟩
+      intro k hdk hk
+      by_cases hkm : k < m
+      · exact hhi k hdk hkm
+      · have : k = m := by omega
+        subst this
+        exact hmono d k (by omega) (by omega) (hhi d (le_refl _) hd')
+    · have hdm : d = m := by omega
+      subst hdm
+      by_cases hp : p d
+      · exact ⟨d, by omega, hlo, fun k hdk hk => by
+          have : k = d := by omega
+          subst this
+          exact hp⟩
+      · refine ⟨d + 1, le_refl _, ?_, fun k hdk hk => by omega⟩
+        intro k hk
+        by_cases hkd : k < d
+        · exact hlo k hkd
+        · have : k = d := by omega
+          subst this
+          exact hp
+
+/-- LB_count: with such a boundary the number of true entries below `n` is `n - d`. -/
+theorem LB_count (p : ℕ → Prop) [DecidablePred p] (n d : ℕ) (_hd : d ≤ n)
+    (hlo : ∀ k, k < d → ¬ p k) (hhi : ∀ k, d ≤ k → k < n → p k) :
+    ((Finset.range n).filter p).card = n - d := by
+  have hset : (Finset.range n).filter p = Finset.Ico d n := by
+    ext k
+    simp only [Finset.mem_filter, Finset.mem_range, Finset.mem_Ico]
+    constructor
+    · rintro ⟨hk, hp⟩
+      refine ⟨?_, hk⟩
+      by_contra hlt
+      exact hlo k (by omega) hp
+    · rintro ⟨hdk, hk⟩
+      exact ⟨hk, hhi k hdk hk⟩
+  rw [hset, Nat.card_Ico]
